@@ -70,6 +70,10 @@ type ScenarioB struct {
 	DAStart uint64 `json:"da_start,omitempty"`
 	// DAms > 0: the node's DA block time in milliseconds (default 2000).
 	DAms int `json:"da_ms,omitempty"`
+	// CustomPayload: the chain signs a non-default payload (ManagerOptions.SignaturePayloadProvider on both nodes).
+	CustomPayload bool `json:"custom_payload,omitempty"`
+	// Prometheus: both nodes run with instrumentation.prometheus = true.
+	Prometheus bool `json:"prometheus,omitempty"`
 }
 
 func (sc ScenarioB) daBase() uint64 {
@@ -122,8 +126,9 @@ func GenB(t *rapid.T, maxChain int, withCrash bool) ScenarioB {
 	sc := ScenarioB{InitialHeight: GenInitial(t)}
 	sc.Chain = GenChain(t, maxChain)
 	maxDA := uint64(rapid.IntRange(1, 6).Draw(t, "maxda"))
+	lateFirst := false
 	split := rapid.SampledFrom([]string{"da", "da", "p2p", "mixed", "mixed"}).Draw(t, "split")
-	if rapid.IntRange(0, 11).Draw(t, "long") == 0 {
+	if rapid.IntRange(0, 9).Draw(t, "long") == 0 {
 		// a long chain that reaches the node in few large jumps (mostly through the P2P stores)
 		sc.ChainTimes = (rapid.IntRange(66, 140).Draw(t, "longlen") + len(sc.Chain) - 1) / len(sc.Chain)
 		split = rapid.SampledFrom([]string{"p2p", "p2p", "mixed", "da"}).Draw(t, "longsplit")
@@ -131,13 +136,20 @@ func GenB(t *rapid.T, maxChain int, withCrash bool) ScenarioB {
 			// the proposer published a long backlog in one go (block time far below the DA block time, or after
 			// a DA outage): hundreds of blobs of the chain sit in one or two DA heights
 			maxDA = uint64(rapid.IntRange(1, 2).Draw(t, "longmaxda"))
+			if lateFirst = rapid.Bool().Draw(t, "latefirst"); lateFirst {
+				sc.ChainTimes = (rapid.IntRange(101, 260).Draw(t, "latefirstlen") + len(sc.Chain) - 1) / len(sc.Chain)
+			}
 		}
 	}
 	chain := sc.FullChain()
 	n := len(chain)
+	// lateFirst: the header of the lowest block is the very last thing the node gets to see (alone in a DA
+	// height above everything else), so that ONE event makes the whole chain applicable
 	for i, st := range chain {
 		onDA := split == "da" || (split == "mixed" && rapid.IntRange(0, 9).Draw(t, "onda") < 7)
-		if onDA {
+		if onDA && lateFirst && i == 0 {
+			sc.Placements = append(sc.Placements, Placement{Off: 0, Kind: "header", DAHeight: maxDA + 1})
+		} else if onDA {
 			k := rapid.SampledFrom([]int{1, 1, 1, 2}).Draw(t, "hcopies")
 			for j := 0; j < k; j++ {
 				sc.Placements = append(sc.Placements, Placement{Off: i, Kind: "header", DAHeight: 1 + uint64(rapid.IntRange(0, int(maxDA)-1).Draw(t, "hda"))})
@@ -168,6 +180,8 @@ func GenB(t *rapid.T, maxChain int, withCrash bool) ScenarioB {
 	if rapid.IntRange(0, 3).Draw(t, "dams") == 0 {
 		sc.DAms = rapid.SampledFrom([]int{20, 50, 99, 100, 500}).Draw(t, "damsv")
 	}
+	sc.CustomPayload = rapid.IntRange(0, 4).Draw(t, "custompayload") == 0
+	sc.Prometheus = rapid.IntRange(0, 4).Draw(t, "prometheus") == 0
 	if rapid.IntRange(0, 2).Draw(t, "slowexec") == 0 {
 		sc.ExecMs = rapid.SampledFrom([]int{500, 3000, 7000}).Draw(t, "execms")
 	}
@@ -237,7 +251,7 @@ func runB(sc ScenarioB, dir, id string, step func(r *BRun, when string) *world.P
 		defer os.RemoveAll(root)
 		base := sc.daBase()
 		c, err := fw.BuildChain(world.NodeOpts{ChainID: "drvb-chain", InitialHeight: sc.InitialHeight, RootDir: root + "/p", DAStartHeight: sc.DAStart,
-			DABlockTime: time.Duration(sc.DAms) * time.Millisecond}, sc.FullChain())
+			DABlockTime: time.Duration(sc.DAms) * time.Millisecond, CustomPayload: sc.CustomPayload, Prometheus: sc.Prometheus}, sc.FullChain())
 		if err != nil {
 			return world.Fail(id+"/chain", "cannot build the proposer chain: %v", err)
 		}
@@ -296,6 +310,12 @@ func runB(sc ScenarioB, dir, id string, step func(r *BRun, when string) *world.P
 		}
 		if sc.DAStart > 0 {
 			r.Labels = append(r.Labels, "configured-da-start")
+		}
+		if sc.CustomPayload {
+			r.Labels = append(r.Labels, "custom-signature-payload")
+		}
+		if sc.Prometheus {
+			r.Labels = append(r.Labels, "prometheus-metrics")
 		}
 		if sc.DAms > 0 && sc.DAms < 100 {
 			r.Labels = append(r.Labels, "da-block-time<100ms")
@@ -440,6 +460,20 @@ func runB(sc ScenarioB, dir, id string, step func(r *BRun, when string) *world.P
 				outOfOrder = true
 			}
 			last[pl.Kind] = pl.DAHeight
+		}
+		if len(c.Blocks) > 100 && !twoIngress && len(sc.Placements) > 0 {
+			// is the lowest header alone above everything else?
+			var h0, rest uint64
+			for _, pl := range sc.Placements {
+				if pl.Off == 0 && pl.Kind == "header" {
+					h0 = pl.DAHeight
+				} else if pl.DAHeight > rest {
+					rest = pl.DAHeight
+				}
+			}
+			if h0 > rest {
+				r.Labels = append(r.Labels, ">100-blocks-unblocked-by-one-late-header")
+			}
 		}
 		if twoIngress {
 			r.Labels = append(r.Labels, "two-ingress-kinds")
